@@ -23,34 +23,34 @@ class Recorder(object):
         return self.f(x, *args, **kwds)
 
 
-def _match(delta, steps_c, tol=1e-6):
-    """(step index 1-based, unit code) with delta = unit * steps_c[i], or None"""
-    best = None
+def _matches(delta, steps_c, tol=1e-6):
+    """ALL (step index 1-based, unit code) with delta = unit * steps_c[i]: the decomposition is not unique when a unit
+    ratio coincides with the step ratio (2 * h[i+1] = h[i] for ratio 2); the trace specification resolves the choice"""
+    out = []
     for i, h in enumerate(steps_c):
         if h == 0:
             continue
         r = delta / h
         for code, u in UNITS:
             if abs(r - u) <= tol * abs(u):
-                if best is None:
-                    best = (i + 1, code)
+                out.append((i + 1, code))
                 break
-        if best:
-            break
-    return best
+    return out
 
 
 def project(arg, x, steps, elementwise, token_ok):
     """event record for one evaluation.
     x: the array the class works on (flattened for coordinate classes); steps: list of generated
     steps (scalars or arrays broadcastable to x); elementwise: Derivative semantics (every element
-    is its own scalar problem and all move together)."""
+    is its own scalar problem and all move together).
+    c, u, i, jc, ji describe the first consistent decomposition; `alts` lists every consistent one as
+    [i, [u per touched coordinate], ji]."""
     x = np.asarray(x)
     if arg[0] == 'bi':
         z1, z2 = np.asarray(arg[1]), np.asarray(arg[2])
     else:
         z1, z2 = np.asarray(arg[1]), None
-    ev = dict(c=[], u=[], i=0, re=0, jc=[], ji=0, tok=1 if token_ok else 0)
+    ev = dict(c=[], u=[], i=0, re=0, jc=[], ji=0, tok=1 if token_ok else 0, alts=[])
     if z1.shape != x.shape:
         try:
             z1 = np.broadcast_to(z1, x.shape)
@@ -61,47 +61,42 @@ def project(arg, x, steps, elementwise, token_ok):
     delta = (z1 - x).ravel()
     S = [np.broadcast_to(np.asarray(s, dtype=complex), x.shape).ravel() for s in steps]
     nz = np.flatnonzero(delta != 0)
+    main = []                    # consistent (i, [u...]) decompositions of the first component
     if elementwise:
         if nz.size:
-            ms = set()
+            common = None
             for c in range(delta.size):
-                m = _match(delta[c], [s[c] for s in S])
-                ms.add(m)
-            if len(ms) == 1 and None not in ms:
-                i, code = ms.pop()
-                ev.update(c=[1], u=[code], i=i)
-            else:
-                ev.update(c=[1], u=[0], i=0)
+                ms = set(_matches(delta[c], [s[c] for s in S]))
+                common = ms if common is None else common & ms
+            ev['c'] = [1]
+            main = [(i, [code]) for i, code in sorted(common or ())]
     else:
-        idx = set()
+        cands = []
         for c in nz:
-            m = _match(delta[c], [s[c] for s in S])
             ev['c'].append(int(c) + 1)
-            if m is None:
-                ev['u'].append(0)
-            else:
-                ev['u'].append(m[1])
-                idx.add(m[0])
-        if len(idx) == 1:
-            ev['i'] = idx.pop()
-        elif len(idx) > 1:
-            ev['u'] = [0] * len(ev['u'])
+            cands.append(dict(_matches(delta[c], [s[c] for s in S])))
+        if cands:
+            for i in sorted(set.intersection(*[set(d) for d in cands])):
+                main.append((i, [d[i] for d in cands]))
+    jparts = [0]
     if z2 is not None:
         d2 = np.broadcast_to(z2, x.shape).ravel()
         nz2 = np.flatnonzero(d2 != 0)
-        if elementwise:
-            if nz2.size:
-                ms = {_match(d2[c], [s[c] for s in S]) for c in range(d2.size)}
-                if len(ms) == 1 and None not in ms and next(iter(ms))[1] == 1:
-                    ev.update(jc=[1], ji=next(iter(ms))[0])
-                else:
-                    ev.update(jc=[1], ji=0)
+        if nz2.size:
+            if elementwise:
+                ev['jc'] = [1]
+                sets = [{i for i, code in _matches(d2[c], [s[c] for s in S]) if code == 1} for c in range(d2.size)]
+            else:
+                ev['jc'] = [int(c) + 1 for c in nz2]
+                sets = [{i for i, code in _matches(d2[c], [s[c] for s in S]) if code == 1} for c in nz2]
+            jparts = sorted(set.intersection(*sets)) or [0]
+    if ev['c']:
+        if main:
+            ev['alts'] = [[i, u, j] for i, u in main for j in jparts]
         else:
-            jis = set()
-            for c in nz2:
-                m = _match(d2[c], [s[c] for s in S])
-                ev['jc'].append(int(c) + 1)
-                jis.add(m[0] if (m is not None and m[1] == 1) else 0)
-            if len(jis) == 1:
-                ev['ji'] = jis.pop()
+            ev['u'] = [0] * len(ev['c'])
+    elif ev['jc']:
+        ev['alts'] = [[0, [], j] for j in jparts]
+    if ev['alts']:
+        ev['i'], ev['u'], ev['ji'] = ev['alts'][0][0], list(ev['alts'][0][1]), ev['alts'][0][2]
     return ev
